@@ -556,6 +556,31 @@ class RawOrigin(Behaviour):
                     conn.outbox.append((self.finally_,))
 
 
+class TimedOrigin(Behaviour):
+    """Origin that sends `greeting` on accept and then piece k at virtual time accept + schedule[k][0]
+    (a server pushing data on its own clock).  The scenario's min_time must cover the schedule."""
+
+    def __init__(self, greeting=(), schedule=()):
+        self.greeting = list(greeting)
+        self.schedule = sorted(schedule)
+
+    def on_accept(self, conn):
+        for p in self.greeting:
+            conn.outbox.append(('send', p))
+        w = conn.w
+        t0 = w.now
+        pending = list(self.schedule)
+
+        def tick(world):
+            while pending and world.now >= t0 + pending[0][0] - 1e-9 and not conn.closed:
+                conn.outbox.append(('send', pending.pop(0)[1]))
+                world.activity += 1
+        w.hooks.append(tick)
+
+    def on_data(self, conn, d):
+        pass
+
+
 class CloseOnAccept(Behaviour):
     """Peer that hangs up the instant the connection is established (e.g. stands in for a TLS
     endpoint: a blocking handshake in the SUT then fails at once instead of waiting)."""
